@@ -101,19 +101,19 @@ theorem mem_inv {T : SymTable} {x : Arg} {r : Reg} {o : ImmReg} (h : mem T x = s
 
 theorem afterRaw_regreg (ev : Ev) (b o : Bytes) :
     afterRaw ev (.bin .add (.ident b) (.ident o)) = .ok (ev.or ⟨false, none⟩, .bin .add (.ident b) (.ident o)) := by
-  simp [afterRaw, simplifyRaw, isBad, cval, merge, mergeL, mergeR, findC, preInv, neutralizeRaw, normAddSub, stripNeg,
+  simp [afterRaw, simplifyRaw, isBad, cval, merge, mergeL, mergeR, findC, preInv, neutralizeRaw, neutralizeBin, normAddSub, stripNeg,
     neutralTail, neutralMain]
 
 theorem afterRaw_regconst_pos (ev : Ev) (b : Bytes) (c : Int) (hc : 0 < c) :
     afterRaw ev (.bin .add (.ident b) (.const c)) = .ok (ev.or ⟨false, none⟩, .bin .add (.ident b) (.const c)) := by
   have h1 : ¬ c < 0 := by omega
   have h2 : c ≠ 0 := by omega
-  simp [afterRaw, simplifyRaw, isBad, cval, merge, mergeL, mergeR, findC, preInv, neutralizeRaw, normAddSub, stripNeg,
+  simp [afterRaw, simplifyRaw, isBad, cval, merge, mergeL, mergeR, findC, preInv, neutralizeRaw, neutralizeBin, normAddSub, stripNeg,
     neutralTail, neutralMain, neutralR, h1, h2]
 
 theorem afterRaw_regconst_zero (ev : Ev) (b : Bytes) :
     afterRaw ev (.bin .add (.ident b) (.const 0)) = .ok (ev.or ⟨false, none⟩, .ident b) := by
-  simp [afterRaw, simplifyRaw, isBad, cval, merge, mergeL, mergeR, findC, preInv, neutralizeRaw, normAddSub, stripNeg,
+  simp [afterRaw, simplifyRaw, isBad, cval, merge, mergeL, mergeR, findC, preInv, neutralizeRaw, neutralizeBin, normAddSub, stripNeg,
     neutralTail, neutralMain, neutralR]
 
 theorem afterRaw_regconst_neg (ev : Ev) (b : Bytes) (c : Int) (hc : c < 0) :
@@ -121,24 +121,24 @@ theorem afterRaw_regconst_neg (ev : Ev) (b : Bytes) (c : Int) (hc : c < 0) :
     (∃ ev' y, afterRaw ev (.bin .add (.ident b) (.const c)) = .ok (ev', .bin .sub (.ident b) y)) := by
   by_cases hm : checkedNeg c = none
   · left
-    simp [afterRaw, simplifyRaw, isBad, cval, merge, mergeL, mergeR, findC, preInv, neutralizeRaw, normAddSub, stripNeg, hc, hm]
+    simp [afterRaw, simplifyRaw, isBad, cval, merge, mergeL, mergeR, findC, preInv, neutralizeRaw, neutralizeBin, normAddSub, stripNeg, hc, hm]
   · right
     obtain ⟨nv, hnv⟩ := Option.ne_none_iff_exists'.1 hm
     have hnz : nv ≠ 0 := by
       simp only [checkedNeg] at hnv
       obtain ⟨_, rfl⟩ := checked_eq_some.1 hnv
       omega
-    simp [afterRaw, simplifyRaw, isBad, cval, merge, mergeL, mergeR, findC, preInv, neutralizeRaw, normAddSub, stripNeg, hc, hnv,
+    simp [afterRaw, simplifyRaw, isBad, cval, merge, mergeL, mergeR, findC, preInv, neutralizeRaw, neutralizeBin, normAddSub, stripNeg, hc, hnv,
       neutralTail, neutralMain, neutralR, hnz]
 
 theorem afterRaw_constreg_zero (ev : Ev) (b : Bytes) :
     afterRaw ev (.bin .add (.const 0) (.ident b)) = .ok (ev.or ⟨false, none⟩, .ident b) := by
-  simp [afterRaw, simplifyRaw, isBad, cval, merge, mergeL, mergeR, findC, preInv, neutralizeRaw, normAddSub, stripNeg,
+  simp [afterRaw, simplifyRaw, isBad, cval, merge, mergeL, mergeR, findC, preInv, neutralizeRaw, neutralizeBin, normAddSub, stripNeg,
     neutralTail, neutralMain, neutralL]
 
 theorem afterRaw_constreg_nz (ev : Ev) (b : Bytes) (c : Int) (hc : c ≠ 0) :
     afterRaw ev (.bin .add (.const c) (.ident b)) = .ok (ev.or ⟨false, none⟩, .bin .add (.const c) (.ident b)) := by
-  simp [afterRaw, simplifyRaw, isBad, cval, merge, mergeL, mergeR, findC, preInv, neutralizeRaw, normAddSub, stripNeg,
+  simp [afterRaw, simplifyRaw, isBad, cval, merge, mergeL, mergeR, findC, preInv, neutralizeRaw, neutralizeBin, normAddSub, stripNeg,
     neutralTail, neutralMain, neutralL, hc]
 
 theorem evaluate_regIdent (lk : Bytes → Lookup) {x : Arg} (h : regIdent x = true) :
